@@ -21,11 +21,16 @@ func main() {
 	run.Budget(4*time.Minute, 25*time.Minute)
 	dkgcheck.Run(run, "C08", dkgcheck.Jobs(run))
 	depth := 3
-	dkgcheck.PlainVSS(run, 3, 1, depth)
+	dkgcheck.PlainVSS(run, 3, 1, 1, 0, depth)
+	// receiver at index 0 (evaluation point 1: where coefficient-wise cancellations show)
+	dkgcheck.PlainVSS(run, 3, 1, 0, 1, 2)
 	if run.Thorough() {
-		dkgcheck.PlainVSS(run, 4, 2, depth)
+		dkgcheck.PlainVSS(run, 4, 2, 1, 0, depth)
+		dkgcheck.PlainVSS(run, 4, 2, 0, 1, depth)
+		dkgcheck.PlainVSS(run, 3, 1, 0, 1, depth)
 	} else {
-		dkgcheck.PlainVSS(run, 4, 2, 2)
+		dkgcheck.PlainVSS(run, 4, 2, 1, 0, 2)
+		dkgcheck.PlainVSS(run, 4, 2, 0, 1, 2)
 	}
 	dkgcheck.Describe(run, "C08")
 	run.Finish()
